@@ -348,6 +348,10 @@ func (f failingBody) Read([]byte) (int, error) { return 0, f.err }
 func (f failingBody) Close() error             { return nil }
 
 func (t *scriptedTransport) find(u *url.URL) (string, *httpBehaviour) {
+	// the very URL first (query included): two distribution points may differ in their query only
+	if b, ok := t.m[u.String()]; ok {
+		return u.String(), b
+	}
 	best := ""
 	var bb *httpBehaviour
 	for k, b := range t.m {
